@@ -207,10 +207,45 @@ def _answer(m: RefGraph, op):
     raise KeyError(q)
 
 
+def _spoil(raw, junk):
+    """F3: the consumer goes on working with the container it was handed
+    (extends it in place); containers that refuse are left alone"""
+    try:
+        if isinstance(raw, set):
+            raw.add(junk)
+        elif isinstance(raw, list):
+            raw.append(junk)
+        elif isinstance(raw, dict):
+            raw[junk] = junk
+    except Exception:  # noqa: BLE001
+        pass
+
+
 def _ask(R, g, op):
     q = op["q"]
     a = op.get("a")
     b = op.get("b")
+    if op.get("tamper") and q in ("get_formed_bonds", "get_broken_bonds", "get_fleeting_bonds", "active_atoms",
+                                  "connected_components", "node_connected_component"):
+        if q == "node_connected_component":
+            raw = g.node_connected_component(a)
+            out = tuple(sorted(raw))
+            _spoil(raw, 10 ** 9 + 7)
+        elif q == "connected_components":
+            raw = g.connected_components()
+            out = sorted(tuple(sorted(c)) for c in raw)
+            for c in list(raw)[:1]:
+                _spoil(c, 10 ** 9 + 7)
+            _spoil(raw, {10 ** 9 + 7})
+        elif q == "active_atoms":
+            raw = g.active_atoms(op.get("layer", 0))
+            out = tuple(sorted(x for x in raw if x is not None))
+            _spoil(raw, 10 ** 9 + 7)
+        else:
+            raw = getattr(g, q)()
+            out = sorted(tuple(sorted(x)) for x in raw)
+            _spoil(raw, frozenset((10 ** 9 + 7, 10 ** 9 + 8)))
+        return out
     if q == "has_atom":
         return g.has_atom(a)
     if q == "has_bond":
@@ -908,6 +943,20 @@ def probe_enant(w, op):
     if d or problems:
         w.report({"C06"}, f"enantiomer|result|{','.join(sorted(set(d) | set(problems)))}|{cls}", "")
         return
+    if em.buildable():
+        # the returned graph and the mirror image built independently are
+        # one and the same labelled graph
+        try:
+            f = w.R.guarded(w.R.build, em, None, None)
+        except Exception:  # noqa: BLE001
+            f = None
+        if f is not None and _built_ok(w, f, em, "probe_enant"):
+            for name, fn in (("e==mirror-built-afresh", lambda: e == f), ("mirror-built-afresh==e", lambda: f == e)):
+                st, val = _call(w, fn)
+                if st != "ok" or val is not True:
+                    w.report({"C06"}, f"enantiomer|{name}|{st if st != 'ok' else 'false'}|{cls_eq}", repr(val))
+                    return
+            w.stats["enant:equals-fresh-mirror"] += 1
     exp = brute.full_equal(m, em)
     if exp is None:
         w.stats["probe_skipped:oracle-budget"] += 1
